@@ -40,7 +40,7 @@ def run(ctx):
     nontriv = set()
     # oracle 1 (in-process): return value of output() == worst tag in the printed report, under every option set
     for r in recs:
-        want = canon.worst(r['ptext']['algs'])
+        want = canon.worst_report(r['text']['text'], r['ptext']['algs'])
         order = tuple(l for a in r['ptext']['algs'] for (l, t) in a['notes'] if l != 'info')[:6]
         nontriv.add(('mix', reportfam.sev_mix(r), order))
         if r['text']['ret'] != want:
@@ -148,12 +148,12 @@ def run(ctx):
                 js = canon.load_json(out)
                 want = canon.worst(canon.json_algs(js))
                 # JSON rates unknown names as fail where text says warn: compare through the text rule for unknown names
-                want_txt = canon.worst(canon.parse_text(inproc.run_output(p)['text'])['algs'])
+                want_txt = canon.worst_report(inproc.run_output(p)['text'])
                 want = want_txt
             else:
                 pt = canon.parse_text(out, verbose='-v' in opts)
-                full = canon.worst(canon.parse_text(inproc.run_output(p)['text'])['algs'])
-                shown = canon.worst(pt['algs'])
+                full = canon.worst_report(inproc.run_output(p)['text'])
+                shown = canon.worst_report(out, pt['algs'])
                 want = full
                 lvl = opts[opts.index('-l') + 1] if '-l' in opts else 'info'
                 if lvl == 'info' and shown != full:
@@ -169,12 +169,12 @@ def run(ctx):
             else:
                 algs = canon.parse_text(out)['algs']
                 has = any(a['cat'] == 'enc' for a in algs) and any(a['cat'] == 'key' for a in algs)
-                want = canon.worst(algs)
+                want = canon.worst_report(out, algs)
             if not has or res['rc'] != want:
                 ctx.violation('fallback-ssh1-status', 'SSH-1 retry after a protocol mismatch: exit status %r, report present: %r, worst finding of the SSH-1 report: %r' % (res['rc'], has, want),
                               {'op': 'cli', 'kind': kind, 'opts': opts, 'cmask': p['cmask'], 'amask': p['amask'], 'out': out[-400:]})
         else:
-            has_report = bool(re.search(r'^\((kex|key|enc|mac)\) ', canon.strip_ansi(out), re.M)) or ('"kex"' in out)
+            has_report = bool(re.search(r'^\((kex|key|enc|mac|aut|fin)\) ', canon.strip_ansi(out), re.M)) or any(('"%s"' % k) in out for k in ('kex', 'key', 'enc', 'mac', 'aut', 'fingerprints'))
             if res['rc'] != 1 or has_report:
                 ctx.violation('incomplete-audit/%s' % kind, 'handshake broken (%s): exit status %r, algorithm report shown: %r' % (kind, res['rc'], has_report),
                               {'op': 'cli', 'kind': kind, 'opts': opts, 'out': out[-500:]})
@@ -214,7 +214,7 @@ def run(ctx):
         shutil.rmtree(tmpd, ignore_errors=True)
     for (o, th), res in zip(mcases, mres):
         blocks = res['out'].split('-' * 80 + '\n\n')
-        worst = [canon.worst(canon.parse_text(b)['algs']) for b in blocks]
+        worst = [canon.worst_report(b) for b in blocks]
         want = max(worst) if worst else None
         n2.add(('multi', tuple(o), res['rc']))
         if len(blocks) != len(o) or res['rc'] != want:
